@@ -255,13 +255,43 @@ def keys_collide(pkg, sd, tagcase):
     return len(set(ks)) != len(ks) or "" in ks
 
 
+def _sd(name, fields, comment=()):
+    return {"pkg": "", "name": name, "tparams": [], "doc": ctorgen.doc_text(list(comment)), "comment": list(comment),
+            "fields": fields}
+
+
+def fixed_corpus():
+    """two fixed packages at the head of every run (inside the guard, judged like the generated ones):
+    j000  -tagcase=camel with two-letter all-caps humps after the first hump (userID -> userId, ClientIP -> clientIp,
+          hostOS -> hostOs), own and promoted;
+    j001  a type none of whose OWN fields needs JSON code (exported, explicitly tagged) embedding a shoot type whose
+          accessor field does: it must get its own JSON code (else Go promotes the embedded type's MarshalJSON)"""
+    B, N, f = ctorgen.T_basic, ctorgen.T_named, ctorgen.fdecl
+    peer = _sd("Peer", [f(["userID"], B("int"), ["//shoot: get;set"]), f(["ClientIP"], B("string")),
+                        f(["hostOS"], B("string")), f(["peerIP"], B("bool"), ["//shoot: get"])])
+    conn = _sd("Conn", [f([], N("", "Peer")), f(["Port"], B("int")), f(["nodeID"], B("int64"), ["//shoot: set;get"])])
+    a = {"name": "j000", "structs": [peer, conn], "extra_decls": [], "features": {}, "tagcase": "camel"}
+    base = _sd("Base", [f(["name"], B("string"), ["//shoot: get;set"]), f(["Level"], B("int"))])
+    son = _sd("Son", [f([], N("", "Base")), f(["Title"], B("string"), (), '`json:"title"`'),
+                      f(["Count"], B("int"), (), '`json:"count"`')])
+    b = {"name": "j001", "structs": [base, son], "extra_decls": [], "features": {}, "tagcase": "lower"}
+    for pkg in (a, b):
+        pkg["order"] = [sd["name"] for sd in pkg["structs"]]
+        pkg["rounds"], pkg["getset"] = 1, True
+        pkg["classes"] = [precheck(pkg, sd, pkg["order"]) for sd in pkg["structs"]]
+    return [a, b]
+
+
 def gen_packages(run, n):
     pkgs, stats = [], {"regenerated": 0, "outside_guard_kept": 0, "fatal_expected": 0, "key_collision_kept": 0,
-                   "key_collision_regenerated": 0}
+                   "key_collision_regenerated": 0, "fixed_corpus": 0}
+    if n >= 20:
+        pkgs += fixed_corpus()
+        stats["fixed_corpus"] = len(pkgs)
     k = 0
     # the first packages of every run are of one fixed class, inside the guard: a write-only shoot type embedded by a later
     # type of the same -getset -json run (first generation; depends on the package being reloaded after EVERY type)
-    need = 3 if n < 100 else 10
+    need = len(pkgs) + (3 if n < 100 else 10)
     while len(pkgs) < n:
         k += 1
         name = "j%03d" % len(pkgs)
@@ -918,7 +948,9 @@ def main(run):
         "distinct_nontrivial": len(nontrivial),
         "rule": ("%d generated packages of 1..5 struct declarations of the C03 grammar (get/set field directives, type-level "
                  "getter/setter directives, value/pointer embedding of earlier shoot structs to depth 3, generics, name forms "
-                 "lower/camel/snake/acronym/ALLCAPS/exported) with explicit json tags on ~20%% of the single-name fields; "
+                 "lower/camel/snake/acronym/ALLCAPS/exported) with explicit json tags on ~20%% of the single-name fields; the "
+                 "first two packages are a fixed corpus (two-letter humps under camel; an outer type needing JSON code only "
+                 "for promoted fields), the next 3 (thorough 10) embed a write-only shoot type; "
                  "`shoot new [-getset on 85%%] -json -tagcase=<uniform over pascal|camel|lower|upper> -type=<all or all but "
                  "one, declaration order>`.  Per selected struct: MarshalJSON/UnmarshalJSON declared?, the shadow struct's "
                  "fields (name, type, tag), json.Marshal(NewT(sentinels)) members in order with raw JSON values (the same value "
